@@ -18,12 +18,20 @@ var c19Types = []string{ical.CompEvent, ical.CompToDo, ical.CompJournal, ical.Co
 var c19UIDs = []string{"", "u1", "u2"}
 
 type c19Case struct {
-	Method bool     `json:"method"`
-	Comps  []string `json:"comps"` // "TYPE/uid"
+	Method bool `json:"method"`
+	// MethodForm: how a present METHOD is written: "" = REQUEST, "empty" = present with an empty value,
+	// "binary" = carrying VALUE=BINARY (its text cannot be read as TEXT)
+	MethodForm string   `json:"method_form,omitempty"`
+	Comps      []string `json:"comps"` // "TYPE/uid"
 }
 
-func c19Decode(idx int, l int, method bool) c19Case {
-	c := c19Case{Method: method}
+var c19MethodForms = []string{"", "empty", "binary"}
+
+func c19Decode(idx int, l int, mv int) c19Case {
+	c := c19Case{Method: mv > 0}
+	if mv > 0 {
+		c.MethodForm = c19MethodForms[mv-1]
+	}
 	for k := 0; k < l; k++ {
 		d := idx % 15
 		idx /= 15
@@ -37,7 +45,18 @@ func c19Build(c c19Case) *ical.Calendar {
 	cal.Props.SetText(ical.PropVersion, "2.0")
 	cal.Props.SetText(ical.PropProductID, "-//verif//EN")
 	if c.Method {
-		cal.Props.SetText(ical.PropMethod, "REQUEST")
+		switch c.MethodForm {
+		case "empty":
+			p := ical.NewProp(ical.PropMethod)
+			cal.Props.Set(p)
+		case "binary":
+			p := ical.NewProp(ical.PropMethod)
+			p.Params.Set(ical.ParamValue, "BINARY")
+			p.Value = "UkVRVUVTVA=="
+			cal.Props.Set(p)
+		default:
+			cal.Props.SetText(ical.PropMethod, "REQUEST")
+		}
 	}
 	for _, s := range c.Comps {
 		i := strings.IndexByte(s, '/')
@@ -134,7 +153,7 @@ func init() {
 		if thorough(r) {
 			maxLen = 5
 		}
-		r.Rule = fmt.Sprintf("every calendar = METHOD{absent,REQUEST} x every component sequence of length 0..%d over 5 component types x UID{absent,u1,u2}; non-trivial = at least 2 components (so that a type or UID conflict is expressible); distinct by the full sequence", maxLen)
+		r.Rule = fmt.Sprintf("every calendar = METHOD{absent, REQUEST, present with an empty value, present with VALUE=BINARY} x every component sequence of length 0..%d over 5 component types x UID{absent,u1,u2}; non-trivial = at least 2 components (so that a type or UID conflict is expressible); distinct by the full sequence", maxLen)
 		r.Explanation = "caldav.ValidateCalendarObject is executed on every generated calendar and compared with an independent reference (accept iff no METHOD, <=1 non-VTIMEZONE type, <=1 distinct UID; results = that type/UID; empty results on rejection)"
 		r.Assumptions = []string{"UID values are plain iCalendar TEXT", "go-ical Props.Get/Text behave as documented"}
 		base := 0
@@ -145,8 +164,8 @@ func init() {
 			}
 			l := l
 			off := int64(base)
-			r.Parallel(n*2, func(i int, s *engine.Shard) {
-				c := c19Decode(i/2, l, i%2 == 1)
+			r.Parallel(n*4, func(i int, s *engine.Shard) {
+				c := c19Decode(i/4, l, i%4)
 				s.Transition()
 				held, sig, exp, obs := c19Eval(c)
 				acc, _, _ := c19Ref(c)
@@ -166,7 +185,7 @@ func init() {
 					s.Violate(engine.Violation{Sig: sig, Clause: sig, Index: off + int64(i), Kind: "C19", Case: c, Expected: exp, Observed: obs})
 				}
 			})
-			base += n * 2
+			base += n * 4
 		}
 		r.Extra["max_components"] = maxLen
 	})
